@@ -742,6 +742,76 @@ func duoKey(s *duo) string {
 	return cache.VerifTTLDump(s.mem) + "||" + strings.Join(ks, ",") + fmt.Sprint(s.nset%3)
 }
 
+// manyKeys: the in-memory cache with tens to thousands of keys present at once, then removed again in
+// several orders and ways - after every removal the removed key is gone (Get, set-if-absent) and every
+// other key is still there; sizes on both sides of 64 / 256 / 1024, where index structures re-organise.
+func manyKeys(c *seq.Ctx) {
+	for _, n := range []int{10, 63, 64, 65, 100, 255, 256, 257, 1000, 1025} {
+		for _, order := range []string{"ascending", "descending", "every-third-first"} {
+			for _, how := range []string{"remove", "remove-after-get"} {
+				clock = 100
+				tc := cache.NewTTLMemCache(n+8, 0)
+				key := func(i int) string { return fmt.Sprintf("k%d", i) }
+				for i := 0; i < n; i++ {
+					_ = tc.Set(bg, key(i), []byte(key(i)))
+				}
+				var ord []int
+				switch order {
+				case "ascending":
+					for i := 0; i < n; i++ {
+						ord = append(ord, i)
+					}
+				case "descending":
+					for i := n - 1; i >= 0; i-- {
+						ord = append(ord, i)
+					}
+				default:
+					for r := 0; r < 3; r++ {
+						for i := r; i < n; i += 3 {
+							ord = append(ord, i)
+						}
+					}
+				}
+				gone := map[int]bool{}
+				bad := ""
+				for step, i := range ord {
+					if how == "remove" {
+						_ = tc.Remove(bg, key(i))
+					} else if v, err := tc.Get(bg, key(i), cache.WithRemoveAfterGet()); err != nil || string(v) != key(i) {
+						bad = fmt.Sprintf("removal no. %d: remove-after-get of %s = %q, %v", step+1, key(i), v, err)
+						break
+					}
+					gone[i] = true
+					if v, err := tc.Get(bg, key(i)); err == nil {
+						bad = fmt.Sprintf("removal no. %d of %d keys (%s, %s): Get(%s) after its removal = %q", step+1, n, order, how, key(i), v)
+						break
+					}
+					// probe a few survivors and earlier victims
+					for _, j := range []int{ord[0], ord[step/2], ord[len(ord)-1], (i + 1) % n, (i + n - 1) % n} {
+						v, err := tc.Get(bg, key(j))
+						if gone[j] && err == nil {
+							bad = fmt.Sprintf("removal no. %d of %d keys (%s, %s): %s, removed earlier, is readable again (%q)", step+1, n, order, how, key(j), v)
+						} else if !gone[j] && (err != nil || string(v) != key(j)) {
+							bad = fmt.Sprintf("removal no. %d of %d keys (%s, %s): %s, never removed, reads %q, %v", step+1, n, order, how, key(j), v, err)
+						}
+					}
+					if bad != "" {
+						break
+					}
+				}
+				if bad == "" {
+					if err := tc.Set(bg, key(ord[0]), []byte("again"), cache.WithMustNotExist()); err != nil {
+						bad = fmt.Sprintf("%d keys removed (%s, %s): set-if-absent of a removed key refused: %v", n, order, how, err)
+					}
+				}
+				c.Case(fmt.Sprintf("many/%s/%s/%v", order, how, bad == ""), bad, "a removed key is served again / a live key is lost when many keys were present", func() interface{} {
+					return map[string]interface{}{"keys": n, "order": order, "how": how}
+				})
+			}
+		}
+	}
+}
+
 func main() {
 	r := ev.Start("C05")
 	r.Rule("breadth-first over all sequences of Set (7 option combinations) / Get (plain, remove-after-get, update-ttl 0/3) / Remove / Clear / clock advance over keys a,b,c on the real in-memory cache for size 0,1,2,3 x default ttl 0/3 under a virtual clock; states merged on (complete implementation state dump with deadlines relative to the clock, reference state); every call's answer and a final probe of all keys on a replayed copy are checked against an 'expired = absent' reference with the one-sided eviction clause; the same histories over two keys on the in-memory and the redis-backed cache (in-memory fake redis.Cmdable with real time.Duration semantics) must agree on every hit/miss, value and already-exists answer; distinct = (op, answer) pairs")
@@ -784,6 +854,7 @@ func main() {
 				return &duo{mem: cache.NewTTLMemCache(1000, 3), rds: cache.NewTTLRdsCache(f, "p:", 3), fake: f}
 			}})
 	}})
+	jobs = append(jobs, job{"many-keys", func() { seq.RunFamily(r, seq.Family{Name: "ttlmem/many-keys-then-removals", Run: manyKeys}) }})
 	jobs = append(jobs, job{"redis-agreement/shared-database", func() {
 		seq.Explore(r, &seq.Spec[*duo]{Name: "redis-agreement/shared-database/defaultTTL=3", Ops: duoOps(), Depth: r.Pick(6, 8), AtEnd: duoEnd, After: duoAfter, Key: duoKey, MaxViolations: 12,
 			Sig: func(path []string, msg string) string {
